@@ -245,7 +245,7 @@ class C06(Prop):
             b, s2 = oresolver.resolve(base, node["$ref"])
             return s2, b
 
-        for x in case["instances"]:
+        for x in GW.instances_of(case):
             try:
                 v = GW.build_validator(case)
                 errors = list(v.iter_errors(x))
